@@ -17,6 +17,7 @@ warnings.filterwarnings("ignore")
 from kmip.core import enums, exceptions, primitives, attributes as cattr, objects as cobjects, secrets  # noqa: E402
 from kmip.core import policy as core_policy  # noqa: E402
 from kmip.core import misc as cmisc  # noqa: E402
+from kmip.core import utils  # noqa: E402
 from kmip.core.factories import attributes as attr_factory  # noqa: E402
 from kmip.core.factories.attribute_values import AttributeValueFactory  # noqa: E402
 from kmip.core.messages import contents, messages, payloads  # noqa: E402
@@ -702,6 +703,27 @@ class ImplEngine(object):
                 r["msg"] = bi.result_message.value if bi.result_message else None
             out.append(r)
         hv = resp.response_header.protocol_version
+        # what the session does next (session.py: response.write under the request's version; a failure there is
+        # answered General Failure): can the response be encoded at all?
+        enc_err = None
+        try:
+            kv = contents.protocol_version_to_kmip_version(ver)
+            resp.write(utils.BytearrayStream(), kmip_version=kv)
+        except Exception as e:
+            import traceback
+            bad = []
+            for k, bi in enumerate(resp.batch_items):
+                try:
+                    bi.write(utils.BytearrayStream(), kmip_version=kv)
+                except Exception:
+                    bad.append(k)
+            fr = [f for f in traceback.extract_tb(e.__traceback__) if "/kmip/" in f.filename]
+            enc_err = {"exc": type(e).__name__, "msg": str(e)[:200], "items": bad,
+                       "site": "%s:%s" % (os.path.basename(fr[-1].filename), fr[-1].name) if fr else "?"}
+        if enc_err is not None:
+            return {"results": out, "_version": hv.major * 10 + hv.minor, "_encode_error": enc_err,
+                    "_batch_count": resp.response_header.batch_count.value,
+                    "_has_timestamp": resp.response_header.time_stamp is not None}
         return {"results": out, "_version": hv.major * 10 + hv.minor,
                 "_batch_count": resp.response_header.batch_count.value,
                 "_has_timestamp": resp.response_header.time_stamp is not None}
